@@ -36,7 +36,7 @@ def tsan_reports(err):
         if not sites:
             continue   # no frame with source position inside the code under test (harness / libc internals while reporting a fatal event)
         key = "race:" + "|".join(sorted(set(sites[:2])))
-        out.append((key, blk[:1500]))
+        out.append((key, blk[:6000]))
     return out
 
 
@@ -64,10 +64,49 @@ def run(ck, tier, name, src, extra=()):
             bp = 1
         targs.append(["run", i, tier, 0, 1, bp, 1 if timed else 0, 0])
         tlabels.append(f"tsan:row{nm}")
-    res = ck.run_harness(name + "-tsan", tsan, targs, env=e, pin=True, labels=tlabels)
-    for lab, r in zip(tlabels, res):
-        for key, txt in tsan_reports(r[3]):
-            ck.fail(key, f"{lab}: ThreadSanitizer data race under the scheduler: " + " ".join(txt.split())[:700],
-                    json.dumps({"cmd": r[0], "report": txt}))
-            ck.add("tsan_reports")
+    # Each TSan process explores at most VS_MAX_EXEC executions, then writes its frontier to a file and a fresh process continues
+    # (ThreadSanitizer's 8192 thread ids are used up after a few thousand executions; recycled ids produce spurious reports).
+    import concurrent.futures, queue, tempfile, shutil
+    tmpd = tempfile.mkdtemp(prefix="tsan-", dir=vlib.BUILD)
+    cpus = queue.Queue()
+    for c in sorted(os.sched_getaffinity(0)):
+        cpus.put(c)
+    fullenv = dict(os.environ); fullenv.update(vlib.SAN_ENV); fullenv.update(e)
+
+    def tsan_row(idx):
+        cpu = cpus.get(); out = []
+        try:
+            args = [str(a) for a in targs[idx]]; k = None; resume = None; seg = 0
+            while True:
+                dump = os.path.join(tmpd, f"r{idx}-{seg}.frontier")
+                env2 = dict(fullenv, VS_MAX_EXEC="2000", VS_DUMP=dump)
+                if resume:
+                    env2["VS_RESUME"] = resume; env2["VS_K"] = str(k)
+                elif k is not None:
+                    env2["VS_K"] = str(k)
+                try:
+                    r = subprocess.run(["taskset", "-c", str(cpu), tsan] + args, capture_output=True, text=True, errors="replace", env=env2, timeout=max(10, ck.time_left()))
+                    res = ([tsan] + args, r.returncode, r.stdout, r.stderr, False)
+                except subprocess.TimeoutExpired as ex:
+                    res = ([tsan] + args, -999, (ex.stdout or b"").decode(errors="replace") if isinstance(ex.stdout, bytes) else (ex.stdout or ""), "", True)
+                out.append(res)
+                m = re.search(r"^CONTINUE k=(\d+)", res[2], re.M)
+                if not m or res[4] or seg > 400:
+                    break
+                k = int(m.group(1)); resume = dump; seg += 1
+        finally:
+            cpus.put(cpu)
+        return out
+    try:
+        with concurrent.futures.ThreadPoolExecutor(vlib.NCPU) as ex:
+            allres = list(ex.map(tsan_row, range(len(targs))))
+    finally:
+        shutil.rmtree(tmpd, ignore_errors=True)
+    for lab, rs in zip(tlabels, allres):
+        for r in rs:
+            ck.parse(lab, r)
+            for key, txt in tsan_reports(r[3]):
+                ck.fail(key, f"{lab}: ThreadSanitizer data race under the scheduler: " + " ".join(txt.split())[:700],
+                        json.dumps({"cmd": r[0], "report": txt}))
+                ck.add("tsan_reports")
     ck.add("tsan_rows", len(targs))
